@@ -269,10 +269,13 @@ def m1_family(level):
 
 # ------------------------------------------------------------------ seeded random models M(d,k,r)
 class RandGen:
-    def __init__(self, seed, consts=CONST, muls=MULS, divs=DIVS, illtyped=0.0):
+    def __init__(self, seed, consts=CONST, muls=MULS, divs=DIVS, illtyped=0.0, text_mode=False):
         self.r = random.Random(seed)
         self.consts, self.muls, self.divs = consts, muls, divs
         self.illtyped = illtyped
+        # text_mode: programs meant to go through the parser + type checker: no numeric literal in a
+        # logic position, avg blocks allowed
+        self.text_mode = text_mode
 
     def gen_num(self, d, vars):
         r = self.r
@@ -292,7 +295,10 @@ class RandGen:
         if x < 0.65:
             return ['abs', self.gen_num(d - 1, vars)]
         if x < 0.85:
-            return [r.choice(['min', 'max']), [self.gen_num(d - 1, vars) for _ in range(r.choice([2, 2, 3]))]]
+            ops = ['min', 'max'] + (['avg'] if self.text_mode else [])
+            return [r.choice(ops), [self.gen_num(d - 1, vars) for _ in range(r.choice([2, 2, 3]))]]
+        if self.text_mode and not [v for v, k in vars if k['k'] == 'Boolean']:
+            return var(r.choice(nv))
         return self.gen_log(d - 1, vars)
 
     def gen_log(self, d, vars):
@@ -301,8 +307,10 @@ class RandGen:
         if self.illtyped and r.random() < self.illtyped:
             return self.gen_num(d, vars)
         if d == 0 or r.random() < 0.3:
-            if bv and r.random() < 0.85:
+            if bv and (self.text_mode or r.random() < 0.85):
                 return var(r.choice(bv))
+            if self.text_mode:
+                return ['not', var(r.choice(bv))] if bv else num(1)
             return num(r.choice([0, 1]))
         x = r.random()
         if x < 0.2:
@@ -327,16 +335,20 @@ class RandGen:
             return D('Real', lo, hi)
         return D('NNReal', r.choice([0, 0, 0.5, 1]), r.choice([1, 2, 3, 4, 'inf']))
 
-    def gen_model(self, maxd=3, maxk=3, maxr=3, names=False, dirs=('min', 'max')):
+    def gen_model(self, maxd=3, maxk=3, maxr=3, names=False, dirs=('min', 'max'), bounded=False):
         r = self.r
         k = r.choice(list(range(1, maxk + 1)) + [2])
         vnames = ['x', 'y', 'z'][:k]
         vars = [(n, self.gen_dom()) for n in vnames]
+        if bounded:
+            vars = [(n, bound_dom(d)) for n, d in vars]
+        if self.text_mode and not any(d['k'] == 'Boolean' for _, d in vars) and r.random() < 0.6:
+            vars[-1] = (vars[-1][0], D('Boolean'))
         d = r.choice([1, 2, 2, 3][:max(1, maxd + 1)]) if maxd >= 1 else 0
         d = min(d, maxd)
         cons = []
         for i in range(r.choice(list(range(1, maxr + 1)) + [2][:maxr])):
-            if r.random() < 0.25:
+            if r.random() < 0.25 and (not self.text_mode or any(k['k'] == 'Boolean' for _, k in vars)):
                 c = {'assert': self.gen_log(d, vars)}
             else:
                 c = row(self.gen_num(d, vars), r.choice(['<=', '>=', '=', '<=', '>=']), self.gen_num(r.choice([0, 0, 1]), vars))
@@ -354,8 +366,19 @@ class RandGen:
         return m
 
 
-def seeded_models(seed, n, maxd=3, **kw):
-    g = RandGen(seed)
+def bound_dom(d):
+    if d['k'] in ('Boolean', 'Int'):
+        return d
+    lo, hi = float(d['lo']), float(d['hi'])
+    if lo == float('-inf'):
+        lo = -4.0 if d['k'] == 'Real' else 0.0
+    if hi == float('inf'):
+        hi = max(lo, 4.0)
+    return D(d['k'], lo, hi)
+
+
+def seeded_models(seed, n, maxd=3, text_mode=False, **kw):
+    g = RandGen(seed, text_mode=text_mode)
     return [{'fam': 'M(%d)' % maxd, 'profile': 'seed%d' % seed, 'model': g.gen_model(maxd=maxd, **kw)} for _ in range(n)]
 
 
